@@ -500,6 +500,14 @@ def _solve_one(ob, timeout_ms, use_cvc5=True, ex=None):
 
     def fn():
         r = s.check()
+        if r == z3.unknown:
+            # the sequence solver is unstable on identical input: retry with other seeds before giving up
+            for seed in (7, 1234):
+                s.set("random_seed", seed)
+                s.set("timeout", max(2000, timeout_ms // 3))
+                r = s.check()
+                if r != z3.unknown:
+                    break
         out = {"r": str(r)}
         if r == z3.sat and ex is not None:
             try:
